@@ -26,6 +26,7 @@ import (
 	"sort"
 	"strings"
 	"sync"
+	"time"
 
 	"verif/harness/evid"
 	"verif/harness/sbx"
@@ -296,6 +297,9 @@ func main() {
 		run.SetMinEvaluations(1)
 	} else {
 		n := run.N(160, 3000)
+		if v := os.Getenv("C11_N"); v != "" { // development aid only
+			n = atoi(v)
+		}
 		for i := 0; i < n; i++ {
 			cases = append(cases, ev.gen.genCase(i))
 		}
@@ -318,7 +322,11 @@ func main() {
 		go func() {
 			defer wg.Done()
 			for i := range jobs {
+				t0 := time.Now()
 				results[i] = result{cases[i], ev.evalCase(cases[i])}
+				if os.Getenv("C11_DEBUG") != "" {
+					fmt.Fprintf(os.Stderr, "case %d %s: %.1fs verdicts=%d\n", i, cases[i].class(), time.Since(t0).Seconds(), len(results[i].vs))
+				}
 			}
 		}()
 	}
